@@ -114,8 +114,8 @@ def expected : List (String × String × String × Nat × Expect) := [
   ("parser/lexer.go", "yyLex.readString", "panic:str", 1, .unreachable "lexer_total_no_internal"),
   ("parser/lexer.go", "yyLex.refill", "call:SyntaxErrorf", 1, .errorChannel),
   ("parser/y.go", "applyTrailers", "panic:str", 1, .internalExplored),
-  ("parser/y.go", "setCtx", "call:SyntaxErrorf", 1, .errorChannel),
-  ("parser/y.go", "yyParserImpl.Parse", "call:SyntaxError", 9, .errorChannel),
+  ("parser/y.go", "setCtx", "call:SyntaxErrorf", 2, .errorChannel),
+  ("parser/y.go", "yyParserImpl.Parse", "call:SyntaxError", 22, .errorChannel),
   ("parser/y.go", "yyParserImpl.Parse", "panic:str", 2, .internalExplored),
   ("symtable/symtable.go", "NewSymTable", "recover:MakeException", 1, .recoverSite),
   ("symtable/symtable.go", "SymTable.AddDef", "call:panicSyntaxErrorf", 1, .syntaxPayload),
